@@ -399,6 +399,10 @@ _EXTRA = {
              'R136: in _rearrange every path from entry to exit passes the loop that contains the recursive call (CFG path search): no early return cuts a subtree off.'),
     'R142': (['C09', 'C07', 'C08', 'C01', 'C19', 'C20'],
              'R142: for every `x = next(it, None)`, each place where x is put into a list / chain / append / yield carries the branch fact that x is not None.'),
+    'R146': (['C02', 'C03', 'C05', 'C12'],
+             'R146: in _preconfigure the call model.invert(triple) stands under the branch fact <pushed variable> == <source of the triple> and under no test of another attribute of the marker.'),
+    'R145': (['C02', 'C01', 'C03', 'C04', 'C07', 'C08', 'C19'],
+             'R145: no call of lower/upper/casefold/title/capitalize/swapcase on a non-constant receiver in surface, _parse, _lexer, layout, codec, _format, constant, graph, transform, model.'),
     'R144': (['C12', 'C11'],
              'R144: in _dereify_agenda (and its helpers) every append of RoleAlignment(...) counts one, every extend that keeps the RoleAlignment markers counts one per triple it walks; the heaviest CFG path through one round stays below two.'),
     'R143': (['C11', 'C12', 'C16', 'C05'],
